@@ -233,6 +233,35 @@ def _lockset_census(ctx: Context) -> None:
                             cta.append((f, t[3], s[3]))
             if wcommon and not cta and all(x[4] in ("r", "subscript") or x[0] for x in lst):
                 unprot = [x for x in lst if not (x[1] & wcommon)]
+                # double-checked locking: an UNLOCKED read of the field that decides control flow (an `if` test) is only sound if,
+                # in every critical section that writes the field, the write comes after every other field initialisation of
+                # that section (publication last) - otherwise the reader can skip the lock and use fields that do not exist yet
+                gates = []
+                for x in unprot:
+                    q = parent(x[3])
+                    while q is not None and not isinstance(q, (ast.stmt,)):
+                        q = parent(q)
+                    if isinstance(q, ast.If) and any(y is x[3] for y in ast.walk(q.test)) and x[2].name not in ("is_available", "has_expired", "is_idle", "is_closed", "info", "__repr__"):
+                        gates.append(x)
+                early = []
+                if gates:
+                    for wx in writes:
+                        wst = parent(wx[3])
+                        while wst is not None and not isinstance(wst, ast.stmt):
+                            wst = parent(wst)
+                        blk = parent(wst)
+                        sibs = getattr(blk, "body", []) if blk is not None else []
+                        if wst in sibs:
+                            later = [y for s_ in sibs[sibs.index(wst) + 1:] for y in ast.walk(s_)
+                                     if isinstance(y, ast.Attribute) and isinstance(y.value, ast.Name) and y.value.id == "self" and not isinstance(y.ctx, ast.Load) and y.attr != fld]
+                            if later:
+                                early.append((wx, later[0]))
+                if gates and early:
+                    g0, (w0, l0) = gates[0], early[0]
+                    rep.ob("C08.R11", key, False, where(g0[2], g0[3]),
+                           f"{c.name}.{fld} is tested WITHOUT the lock in {g0[2].name} (line {g0[3].lineno}) to skip the critical section, but {w0[2].name} stores it (line {w0[3].lineno}) "
+                           f"before `self.{l0.attr}` is initialised (line {l0.lineno}): a thread that sees the flag in that window skips the set-up and uses a field that does not exist yet")
+                    continue
                 rep.ob("C08.R11", key, True, wh, f"every write of {c.name}.{fld} holds {sorted(x.split('.')[-1] for x in wcommon)}; the {len(unprot)} unlocked accesses are plain reads of one reference "
                        "(atomic under the interpreter lock) feeding advisory predicates / snapshots")
                 continue
